@@ -20,7 +20,7 @@ theorem fld_bits (f : Nat) (hf : f < 128) :
     (((shl8 (n8 f) 1 ||| 1) &&& 1) == 1) = true ∧ (shl8 (n8 f) 1 ||| 1) >>> 1 = n8 f :=
   fld_bits_fin ⟨f, hf⟩
 
-/-- the receiver `DecodeMatchField` allocates for (class, field) — classes OPENFLOW_BASIC and NXM_1 -/
+/-- the receiver `DecodeMatchField` allocates for (class, field) — classes OPENFLOW_BASIC, NXM_1 and EXPERIMENTER -/
 def fieldRecv (c f ln : Nat) (hm : Bool) : Option V :=
   if c = Gen.openflow13.OXM_CLASS_OPENFLOW_BASIC then
     match decTarget basicFieldTable f with
@@ -28,6 +28,10 @@ def fieldRecv (c f ln : Nat) (hm : Bool) : Option V :=
     | _ => none
   else if c = Gen.openflow13.OXM_CLASS_NXM_1 then
     match decTarget (nxm1FieldTable ln hm) f with
+    | .val r => some r
+    | _ => none
+  else if c = Gen.openflow13.OXM_CLASS_EXPERIMENTER then
+    match decTarget experimenterFieldTable f with
     | .val r => some r
     | _ => none
   else none
@@ -50,61 +54,114 @@ theorem decode_of_fieldRecv (c f ln : Nat) (hm : Bool) (r : V) (h : fieldRecv c 
       split at h
       · rename_i r' hr'; cases h; rw [hr']
       · cases h
-    · cases h
+    · rename_i hc2
+      rw [if_neg hc2]
+      split at h
+      · rename_i hc3
+        rw [if_pos hc3]
+        split at h
+        · rename_i r' hr'; cases h; rw [hr']
+        · cases h
+      · cases h
 
 theorem fieldRecv_class (c f ln : Nat) (hm : Bool) (r : V) (h : fieldRecv c f ln hm = some r) :
-    c = 32768 ∨ c = 1 := by
+    c = 32768 ∨ c = 1 ∨ c = 65535 := by
   unfold fieldRecv at h
   split at h
   · left; assumption
   · split at h
-    · right; assumption
-    · cases h
+    · right; left; assumption
+    · split at h
+      · right; right; assumption
+      · cases h
 
+/-- the experimenter id a field of class `c` carries: the ONF id in the experimenter class, none (0) otherwise -/
+def eidOf (c : Nat) : Nat :=
+  if c = Gen.openflow13.OXM_CLASS_EXPERIMENTER then Gen.openflow13.ONF_EXPERIMENTER_ID else 0
 
-/-- well-formed match field: header numbers within their widths (Field has 7 bits), no experimenter id, a class/field the
-    library's DecodeMatchField knows (receiver `r`), a well-formed value of the kind registered for it, and a
-    well-formed mask of that kind exactly when HasMask is set (no mask: the Mask interface is nil) -/
+/-- the bytes the encoder writes for it -/
+def eidBytes (c : Nat) : Bytes :=
+  if c = Gen.openflow13.OXM_CLASS_EXPERIMENTER then be32 (n32 Gen.openflow13.ONF_EXPERIMENTER_ID) else []
+
+theorem eidBytes_length_le (c : Nat) : (eidBytes c).length ≤ 4 := by
+  unfold eidBytes; split <;> simp
+
+/-- well-formed match field: header numbers within their widths (Field has 7 bits); ExperimenterID = the ONF id exactly in the
+    experimenter class and 0 otherwise; a class/field the library's DecodeMatchField knows (receiver `r`), a well-formed
+    value of the kind registered for it, and a well-formed mask of that kind exactly when HasMask is set (no mask: the
+    Mask interface is nil) -/
 def MatchFieldWF : V → Prop
   | .obj "MatchField" [.num c, .num f, .num hm, .num ln, .num eid, val, mask] =>
-    c < 65536 ∧ f < 128 ∧ ln < 256 ∧ eid = 0 ∧ PayloadWF val ∧
+    c < 65536 ∧ f < 128 ∧ ln < 256 ∧ eid = eidOf c ∧ PayloadWF val ∧
     ∃ r, fieldRecv c f ln (hm != 0) = some r ∧ RecvOK val r ∧
       ((hm = 0 ∧ mask = .nil) ∨ (hm = 1 ∧ PayloadWF mask ∧ RecvOK mask r))
   | _ => False
 
+/-- Len() prefix and the pieces of the experimenter id, by class -/
+theorem eid_facts (c : Nat) :
+    ((if eidOf c = 0 then (4 : UInt16) else 8).toNat = 4 + (eidBytes c).length) ∧
+    piecesLen (MatchField.eidPieces (.num (eidOf c))) = (eidBytes c).length ∧
+    piecesBytes (MatchField.eidPieces (.num (eidOf c))) = eidBytes c ∧
+    ∀ p ∈ MatchField.eidPieces (.num (eidOf c)), p.Tight := by
+  unfold eidOf eidBytes MatchField.eidPieces
+  by_cases hc : c = Gen.openflow13.OXM_CLASS_EXPERIMENTER
+  · simp only [hc, if_true, V.asNat]
+    have : ¬ Gen.openflow13.ONF_EXPERIMENTER_ID = 0 := by decide
+    simp only [this, if_false]
+    refine ⟨rfl, rfl, ?_, ?_⟩
+    · simp [piecesBytes, pU32, Piece.bytes]
+    · intro p hp; simp at hp; subst hp; trivial
+  · simp only [hc, if_false, V.asNat, if_true]
+    refine ⟨rfl, rfl, rfl, ?_⟩
+    intro p hp; cases hp
+
 /-- encoding of a well-formed field without mask -/
 theorem matchField_encode_nomask (c f ln : Nat) (val mask : V) (hwf : PayloadWF val) (vb : Bytes) (v2 : V)
     (hvb : MatchPayload.marshalM val = .ok (vb, v2)) :
-    let v := V.obj "MatchField" [.num c, .num f, .num 0, .num ln, .num 0, val, mask]
-    MatchField.marshalM v = .ok (be16 (n16 c) ++ [shl8 (n8 f) 1, n8 ln] ++ vb, v) ∧
-    MatchField.lenM v = .ok (UInt16.ofNat (4 + vb.length), v) := by
+    let v := V.obj "MatchField" [.num c, .num f, .num 0, .num ln, .num (eidOf c), val, mask]
+    MatchField.marshalM v = .ok (be16 (n16 c) ++ [shl8 (n8 f) 1, n8 ln] ++ eidBytes c ++ vb, v) ∧
+    MatchField.lenM v = .ok (UInt16.ofNat (4 + (eidBytes c).length + vb.length), v) := by
   intro v
   obtain ⟨lv, hl, hlv, hle⟩ := payload_len val hwf vb v2 hvb
   obtain ⟨bs', he'⟩ := payload_encode val hwf
   rw [he'] at hvb; cases hvb
-  have hlen : MatchField.lenM v = .ok (4 + lv, v) := by
+  obtain ⟨e1, e2, e3, e4⟩ := eid_facts c
+  have hE := eidBytes_length_le c
+  have hlen : MatchField.lenM v = .ok ((if eidOf c = 0 then (4 : UInt16) else 8) + lv, v) := by
     simp only [v, MatchField.lenM, hl, Res.bind_ok, if_true, Res.pure_eq]
-  have h4 : (4 + lv : UInt16).toNat = 4 + vb.length := by
-    rw [UInt16.toNat_add]; simp [hlv]; omega
-  have h4' : (4 + lv : UInt16) = UInt16.ofNat (4 + vb.length) := by
+  have h4 : ((if eidOf c = 0 then (4 : UInt16) else 8) + lv).toNat = 4 + (eidBytes c).length + vb.length := by
+    rw [UInt16.toNat_add, e1, hlv]; omega
+  have h4' : ((if eidOf c = 0 then (4 : UInt16) else 8) + lv) = UInt16.ofNat (4 + (eidBytes c).length + vb.length) := by
     apply UInt16.toNat_inj.mp; rw [h4]; simp [UInt16.toNat_ofNat']; omega
   refine ⟨?_, by rw [hlen, h4']⟩
   unfold MatchField.marshalM
   rw [hlen]
   simp only [Res.bind_ok, v, he', if_true, h4]
-  have hp : 4 + vb.length = piecesLen [pU16 c, .put [shl8 (n8 f) 1], pU8 ln, pCopy vb] := by
-    simp [piecesLen, Piece.adv, pU16, pU8, pCopy]; omega
-  rw [hp, fill_exact' _ (by intro p hp; simp [pU16, pU8, pCopy] at hp; rcases hp with rfl | rfl | rfl | rfl <;> trivial)]
-  simp [piecesBytes, Piece.bytes, pU16, pU8, pCopy]
-
+  have hp : piecesLen ([pU16 c, .put [shl8 (n8 f) 1], pU8 ln] ++ MatchField.eidPieces (.num (eidOf c)) ++ [pCopy vb])
+      = 4 + (eidBytes c).length + vb.length := by
+    simp only [piecesLen, List.map_append, List.sum_append] at e2 ⊢
+    rw [e2]; simp [Piece.adv, pU16, pU8, pCopy]
+  have ht : ∀ p ∈ [pU16 c, .put [shl8 (n8 f) 1], pU8 ln] ++ MatchField.eidPieces (.num (eidOf c)) ++ [pCopy vb], p.Tight := by
+    intro p hp
+    simp only [List.mem_append, List.mem_cons, List.not_mem_nil, or_false] at hp
+    rcases hp with (h | h) | h
+    · rcases h with rfl | rfl | rfl <;> trivial
+    · exact e4 p h
+    · subst h; trivial
+  have := fill_exact' _ ht
+  rw [hp] at this
+  rw [this]
+  simp only [piecesBytes, List.map_append, List.flatten_append] at e3 ⊢
+  rw [e3]
+  simp [Piece.bytes, pU16, pU8, pCopy]
 
 /-- encoding of a well-formed field with mask -/
 theorem matchField_encode_mask (c f ln : Nat) (val mask : V) (hwf : PayloadWF val) (hwfm : PayloadWF mask)
     (vb mb : Bytes) (v2 m2 : V)
     (hvb : MatchPayload.marshalM val = .ok (vb, v2)) (hmb : MatchPayload.marshalM mask = .ok (mb, m2)) :
-    let v := V.obj "MatchField" [.num c, .num f, .num 1, .num ln, .num 0, val, mask]
-    MatchField.marshalM v = .ok (be16 (n16 c) ++ [shl8 (n8 f) 1 ||| 1, n8 ln] ++ vb ++ mb, v) ∧
-    MatchField.lenM v = .ok (UInt16.ofNat (4 + vb.length + mb.length), v) := by
+    let v := V.obj "MatchField" [.num c, .num f, .num 1, .num ln, .num (eidOf c), val, mask]
+    MatchField.marshalM v = .ok (be16 (n16 c) ++ [shl8 (n8 f) 1 ||| 1, n8 ln] ++ eidBytes c ++ vb ++ mb, v) ∧
+    MatchField.lenM v = .ok (UInt16.ofNat (4 + (eidBytes c).length + vb.length + mb.length), v) := by
   intro v
   obtain ⟨lv, hl, hlv, hle⟩ := payload_len val hwf vb v2 hvb
   obtain ⟨lm, hlm, hlmv, hlme⟩ := payload_len mask hwfm mb m2 hmb
@@ -112,57 +169,105 @@ theorem matchField_encode_mask (c f ln : Nat) (val mask : V) (hwf : PayloadWF va
   rw [he'] at hvb; cases hvb
   obtain ⟨bs'', he''⟩ := payload_encode mask hwfm
   rw [he''] at hmb; cases hmb
-  have hlen : MatchField.lenM v = .ok (4 + lv + lm, v) := by
+  obtain ⟨e1, e2, e3, e4⟩ := eid_facts c
+  have hE := eidBytes_length_le c
+  have hlen : MatchField.lenM v = .ok ((if eidOf c = 0 then (4 : UInt16) else 8) + lv + lm, v) := by
     simp only [v, MatchField.lenM, hl, hlm, Res.bind_ok, Res.pure_eq]
     rfl
-  have h4 : (4 + lv + lm : UInt16).toNat = 4 + vb.length + mb.length := by
-    rw [UInt16.toNat_add, UInt16.toNat_add]; simp [hlv, hlmv]; omega
-  have h4' : (4 + lv + lm : UInt16) = UInt16.ofNat (4 + vb.length + mb.length) := by
+  have h4 : ((if eidOf c = 0 then (4 : UInt16) else 8) + lv + lm).toNat
+      = 4 + (eidBytes c).length + vb.length + mb.length := by
+    rw [UInt16.toNat_add, UInt16.toNat_add, e1, hlv, hlmv]; omega
+  have h4' : ((if eidOf c = 0 then (4 : UInt16) else 8) + lv + lm)
+      = UInt16.ofNat (4 + (eidBytes c).length + vb.length + mb.length) := by
     apply UInt16.toNat_inj.mp; rw [h4]; simp [UInt16.toNat_ofNat']; omega
   refine ⟨?_, by rw [hlen, h4']⟩
   unfold MatchField.marshalM
   rw [hlen]
   simp only [Res.bind_ok, v, he', he'', h4]
-  have hp : 4 + vb.length + mb.length = piecesLen [pU16 c, .put [shl8 (n8 f) 1 ||| 1], pU8 ln, pCopy vb, pCopy mb] := by
-    simp [piecesLen, Piece.adv, pU16, pU8, pCopy]; omega
+  have hp : piecesLen ([pU16 c, .put [shl8 (n8 f) 1 ||| 1], pU8 ln] ++ MatchField.eidPieces (.num (eidOf c)) ++ [pCopy vb, pCopy mb])
+      = 4 + (eidBytes c).length + vb.length + mb.length := by
+    simp only [piecesLen, List.map_append, List.sum_append] at e2 ⊢
+    rw [e2]; simp [Piece.adv, pU16, pU8, pCopy]; omega
+  have ht : ∀ p ∈ [pU16 c, .put [shl8 (n8 f) 1 ||| 1], pU8 ln] ++ MatchField.eidPieces (.num (eidOf c)) ++ [pCopy vb, pCopy mb],
+      p.Tight := by
+    intro p hp
+    simp only [List.mem_append, List.mem_cons, List.not_mem_nil, or_false] at hp
+    rcases hp with (h | h) | h
+    · rcases h with rfl | rfl | rfl <;> trivial
+    · exact e4 p h
+    · rcases h with rfl | rfl <;> trivial
   have h10 : ((1 : Nat) = 0) = False := by simp
   simp only [h10, if_false, Res.bind_ok]
-  rw [hp, fill_exact' _ (by intro p hp; simp [pU16, pU8, pCopy] at hp; rcases hp with rfl | rfl | rfl | rfl | rfl <;> trivial)]
-  simp [piecesBytes, Piece.bytes, pU16, pU8, pCopy]
+  have := fill_exact' _ ht
+  rw [hp] at this
+  rw [this]
+  simp only [piecesBytes, List.map_append, List.flatten_append] at e3 ⊢
+  rw [e3]
+  simp [Piece.bytes, pU16, pU8, pCopy]
+
+/-- the header part of MatchField.UnmarshalBinary: class, field/mask byte, length, experimenter id -/
+theorem matchField_decode_head (c : Nat) (fld ln8 : UInt8) (hc : c < 65536) (_hcls : c = 32768 ∨ c = 1 ∨ c = 65535)
+    (data : Slice) (rest : Bytes) (hb : data.bytes = be16 (n16 c) ++ [fld, ln8] ++ eidBytes c ++ rest) :
+    data.u16From 0 = .ok (n16 c) ∧ data.byteAt 2 = .ok fld ∧ data.byteAt 3 = .ok ln8 ∧
+    ((if (n16 c).toNat = Gen.openflow13.OXM_CLASS_EXPERIMENTER then do
+        let e ← data.u32From 4
+        if e.toNat = Gen.openflow13.ONF_EXPERIMENTER_ID then pure ((8 : UInt16), V.u32 e) else .err
+      else pure ((4 : UInt16), V.num 0) : R (UInt16 × V))
+      = .ok (UInt16.ofNat (4 + (eidBytes c).length), .num (eidOf c))) ∧
+    data.bytes.drop (4 + (eidBytes c).length) = rest := by
+  have hb' : data.bytes = be16 (n16 c) ++ ([fld, ln8] ++ (eidBytes c ++ rest)) := by
+    rw [hb]; simp only [List.append_assoc]
+  refine ⟨?_, ?_, ?_, ?_, ?_⟩
+  · rw [Slice.u16From_eq, hb', List.drop_zero, rd16_be16]; rfl
+  · rw [Slice.byteAt_eq, hb']; rfl
+  · rw [Slice.byteAt_eq, hb']; rfl
+  · rw [n16_toNat c hc]
+    by_cases he : c = Gen.openflow13.OXM_CLASS_EXPERIMENTER
+    · rw [if_pos he]
+      have e4 : rd32 (data.bytes.drop 4) = some (n32 Gen.openflow13.ONF_EXPERIMENTER_ID) := by
+        rw [hb']
+        have : List.drop 4 (be16 (n16 c) ++ ([fld, ln8] ++ (eidBytes c ++ rest))) = eidBytes c ++ rest := rfl
+        rw [this]; unfold eidBytes; rw [if_pos he]; exact rd32_be32 _ _
+      have hv : (n32 Gen.openflow13.ONF_EXPERIMENTER_ID).toNat = Gen.openflow13.ONF_EXPERIMENTER_ID := by decide
+      simp only [Slice.u32From_eq, e4, Res.ofOption, Res.bind_ok, hv, if_true, Res.pure_eq, eidBytes, eidOf, he,
+        be32_length, V.u32]
+      rfl
+    · rw [if_neg he]
+      simp only [eidBytes, eidOf, he, if_false, List.length_nil, Res.pure_eq]
+      rfl
+  · rw [hb']
+    have : be16 (n16 c) ++ ([fld, ln8] ++ (eidBytes c ++ rest)) = (be16 (n16 c) ++ [fld, ln8] ++ eidBytes c) ++ rest := by
+      simp only [List.append_assoc]
+    rw [this]
+    exact List.drop_left' (by simp only [List.length_append, be16_length, List.length_cons, List.length_nil])
 
 theorem matchField_decode_nomask (c f ln : Nat) (val : V) (hc : c < 65536) (hf : f < 128) (hln : ln < 256)
     (hwf : PayloadWF val) (r : V) (hr : fieldRecv c f ln false = some r) (hro : RecvOK val r)
     (vb : Bytes) (v2 : V) (hvb : MatchPayload.marshalM val = .ok (vb, v2))
     (data : Slice) (hd : data.WF) (tail : Bytes)
-    (hb : data.bytes = (be16 (n16 c) ++ [shl8 (n8 f) 1, n8 ln] ++ vb) ++ tail) :
+    (hb : data.bytes = (be16 (n16 c) ++ [shl8 (n8 f) 1, n8 ln] ++ eidBytes c ++ vb) ++ tail) :
     MatchField.unmarshal MatchField.zero data =
-      .ok (.obj "MatchField" [.num c, .num f, .num 0, .num ln, .num 0, val, .nil]) := by
+      .ok (.obj "MatchField" [.num c, .num f, .num 0, .num ln, .num (eidOf c), val, .nil]) := by
   obtain ⟨lv, hl, hlv, hle⟩ := payload_len val hwf vb v2 hvb
   obtain ⟨hb1, hb2, hb3, hb4⟩ := fld_bits f hf
+  have hE := eidBytes_length_le c
   have hlen := Slice.len_ge_of_bytes data _ _ hb
-  simp at hlen
+  simp only [List.length_append, be16_length, List.length_cons, List.length_nil] at hlen
   have hcls := fieldRecv_class c f ln false r hr
+  obtain ⟨g1, g2, g3, g4, g5⟩ := matchField_decode_head c (shl8 (n8 f) 1) (n8 ln) hc hcls data (vb ++ tail)
+    (by rw [hb]; simp only [List.append_assoc])
   unfold MatchField.unmarshal MatchField.zero
-  simp only [Slice.u16From_eq, Slice.byteAt_eq, hb, List.drop_zero, List.append_assoc, rd16_be16, Res.ofOption,
-    Res.bind_ok]
-  have e2 : (be16 (n16 c) ++ ([shl8 (n8 f) 1, n8 ln] ++ (vb ++ tail)))[2]? = some (shl8 (n8 f) 1) := rfl
-  have e3 : (be16 (n16 c) ++ ([shl8 (n8 f) 1, n8 ln] ++ (vb ++ tail)))[3]? = some (n8 ln) := rfl
-  simp only [e2, e3, Res.bind_ok, hb1, hb2, n16_toNat c hc]
-  have hne : ¬ c = Gen.openflow13.OXM_CLASS_EXPERIMENTER := by
-    rcases hcls with h | h <;> (rw [h]; decide)
-  rw [if_neg hne]
-  simp only [Res.bind_ok, Res.pure_eq]
-  obtain ⟨t, ht1, ht2, ht3, _⟩ := Slice.fromR_bytes data 4 (by omega)
-  have h4 : (4 : UInt16).toNat = 4 := rfl
-  rw [h4, ht1]
-  simp only [Res.bind_ok, n8_toNat f (by omega), n8_toNat ln hln]
-  have htb : t.bytes = vb ++ tail := by
-    rw [ht2, hb]; rfl
-  have htwf : t.WF := (Slice.fromR_wf data hd 4 t ht1).1
+  simp only [g1, g2, g3, Res.bind_ok, hb1, hb2]
+  rw [g4]
+  have hton : (UInt16.ofNat (4 + (eidBytes c).length)).toNat = 4 + (eidBytes c).length := by
+    simp [UInt16.toNat_ofNat']; omega
+  obtain ⟨t, ht1, ht2, ht3, _⟩ := Slice.fromR_bytes data (4 + (eidBytes c).length) (by omega)
+  have htb : t.bytes = vb ++ tail := by rw [ht2, g5]
+  have htwf : t.WF := (Slice.fromR_wf data hd _ t ht1).1
+  simp only [Res.bind_ok, hton, ht1, n16_toNat c hc, n8_toNat f (by omega), n8_toNat ln hln]
   rw [decode_of_fieldRecv c f ln false r hr t, payload_decode val r hwf hro vb v2 hvb t htwf tail htb]
   simp only [Res.bind_ok, hl]
   simp [V.u16, V.u8, V.bool, n16_toNat c hc, n8_toNat f (by omega), n8_toNat ln hln]
-
 
 theorem matchField_decode_mask (c f ln : Nat) (val mask : V) (hc : c < 65536) (hf : f < 128) (hln : ln < 256)
     (hwf : PayloadWF val) (hwfm : PayloadWF mask) (r : V) (hr : fieldRecv c f ln true = some r)
@@ -170,57 +275,50 @@ theorem matchField_decode_mask (c f ln : Nat) (val mask : V) (hc : c < 65536) (h
     (vb mb : Bytes) (v2 m2 : V) (hvb : MatchPayload.marshalM val = .ok (vb, v2))
     (hmb : MatchPayload.marshalM mask = .ok (mb, m2))
     (data : Slice) (hd : data.WF) (tail : Bytes)
-    (hb : data.bytes = (be16 (n16 c) ++ [shl8 (n8 f) 1 ||| 1, n8 ln] ++ vb ++ mb) ++ tail) :
+    (hb : data.bytes = (be16 (n16 c) ++ [shl8 (n8 f) 1 ||| 1, n8 ln] ++ eidBytes c ++ vb ++ mb) ++ tail) :
     MatchField.unmarshal MatchField.zero data =
-      .ok (.obj "MatchField" [.num c, .num f, .num 1, .num ln, .num 0, val, mask]) := by
+      .ok (.obj "MatchField" [.num c, .num f, .num 1, .num ln, .num (eidOf c), val, mask]) := by
   obtain ⟨lv, hl, hlv, hle⟩ := payload_len val hwf vb v2 hvb
   obtain ⟨lm, hlm, hlmv, hlme⟩ := payload_len mask hwfm mb m2 hmb
   obtain ⟨hb1, hb2, hb3, hb4⟩ := fld_bits f hf
+  have hE := eidBytes_length_le c
   have hlen := Slice.len_ge_of_bytes data _ _ hb
-  simp at hlen
+  simp only [List.length_append, be16_length, List.length_cons, List.length_nil] at hlen
   have hcls := fieldRecv_class c f ln true r hr
+  obtain ⟨g1, g2, g3, g4, g5⟩ := matchField_decode_head c (shl8 (n8 f) 1 ||| 1) (n8 ln) hc hcls data (vb ++ (mb ++ tail))
+    (by rw [hb]; simp only [List.append_assoc])
   unfold MatchField.unmarshal MatchField.zero
-  simp only [Slice.u16From_eq, Slice.byteAt_eq, hb, List.drop_zero, List.append_assoc, rd16_be16, Res.ofOption,
-    Res.bind_ok]
-  have e2 : (be16 (n16 c) ++ ([shl8 (n8 f) 1 ||| 1, n8 ln] ++ (vb ++ (mb ++ tail))))[2]? = some (shl8 (n8 f) 1 ||| 1) := rfl
-  have e3 : (be16 (n16 c) ++ ([shl8 (n8 f) 1 ||| 1, n8 ln] ++ (vb ++ (mb ++ tail))))[3]? = some (n8 ln) := rfl
-  simp only [e2, e3, Res.bind_ok, hb3, hb4, n16_toNat c hc]
-  have hne : ¬ c = Gen.openflow13.OXM_CLASS_EXPERIMENTER := by
-    rcases hcls with h | h <;> (rw [h]; decide)
-  rw [if_neg hne]
-  simp only [Res.bind_ok, Res.pure_eq]
-  obtain ⟨t, ht1, ht2, ht3, _⟩ := Slice.fromR_bytes data 4 (by omega)
-  have h4 : (4 : UInt16).toNat = 4 := rfl
-  rw [h4, ht1]
-  simp only [Res.bind_ok, n8_toNat f (by omega), n8_toNat ln hln]
-  have htb : t.bytes = vb ++ (mb ++ tail) := by
-    rw [ht2, hb]; simp only [List.append_assoc]; rfl
-  have htwf : t.WF := (Slice.fromR_wf data hd 4 t ht1).1
+  simp only [g1, g2, g3, Res.bind_ok, hb3, hb4]
+  rw [g4]
+  have hton : (UInt16.ofNat (4 + (eidBytes c).length)).toNat = 4 + (eidBytes c).length := by
+    simp [UInt16.toNat_ofNat']; omega
+  obtain ⟨t, ht1, ht2, ht3, _⟩ := Slice.fromR_bytes data (4 + (eidBytes c).length) (by omega)
+  have htb : t.bytes = vb ++ (mb ++ tail) := by rw [ht2, g5]
+  have htwf : t.WF := (Slice.fromR_wf data hd _ t ht1).1
+  simp only [Res.bind_ok, hton, ht1, n16_toNat c hc, n8_toNat f (by omega), n8_toNat ln hln]
   rw [decode_of_fieldRecv c f ln true r hr t, payload_decode val r hwf hro vb v2 hvb t htwf _ htb]
   simp only [Res.bind_ok, hl, if_true]
-  have h4l : (4 + lv : UInt16).toNat = 4 + vb.length := by
-    rw [UInt16.toNat_add]; simp [hlv]; omega
-  obtain ⟨t2, hu1, hu2, hu3, _⟩ := Slice.fromR_bytes data (4 + vb.length) (by omega)
+  have h4l : (UInt16.ofNat (4 + (eidBytes c).length) + lv).toNat = 4 + (eidBytes c).length + vb.length := by
+    rw [UInt16.toNat_add, hton, hlv]; omega
+  obtain ⟨t2, hu1, hu2, hu3, _⟩ := Slice.fromR_bytes data (4 + (eidBytes c).length + vb.length) (by omega)
   rw [h4l, hu1]
   have hub : t2.bytes = mb ++ tail := by
-    rw [hu2, hb]
-    simp only [List.append_assoc]
-    have : (be16 (n16 c) ++ ([shl8 (n8 f) 1 ||| 1, n8 ln] ++ (vb ++ (mb ++ tail))))
-        = (be16 (n16 c) ++ [shl8 (n8 f) 1 ||| 1, n8 ln] ++ vb) ++ (mb ++ tail) := by simp
-    rw [this]
-    apply List.drop_left'
-    simp; omega
+    rw [hu2]
+    have : data.bytes.drop (4 + (eidBytes c).length + vb.length) = (data.bytes.drop (4 + (eidBytes c).length)).drop vb.length := by
+      rw [List.drop_drop]
+    rw [this, g5]
+    exact List.drop_left' rfl
   have huwf : t2.WF := (Slice.fromR_wf data hd _ t2 hu1).1
   simp only [Res.bind_ok]
   rw [decode_of_fieldRecv c f ln true r hr t2, payload_decode mask r hwfm hrom mb m2 hmb t2 huwf _ hub]
   simp only [Res.bind_ok, hlm]
   simp [V.u16, V.u8, V.bool, n16_toNat c hc, n8_toNat f (by omega), n8_toNat ln hln]
 
-/-- MatchField round trip: a well-formed field encodes (Len() = size of the encoding, which is between 4 and 514 bytes), and
+/-- MatchField round trip: a well-formed field encodes (Len() = size of the encoding, which is between 4 and 518 bytes), and
     decoding its encoding followed by anything gives the field back -/
 theorem matchField_roundtrip (v : V) (hwf : MatchFieldWF v) :
     ∃ bs, MatchField.marshalM v = .ok (bs, v) ∧ MatchField.lenM v = .ok (UInt16.ofNat bs.length, v) ∧
-      4 ≤ bs.length ∧ bs.length ≤ 514 ∧
+      4 ≤ bs.length ∧ bs.length ≤ 518 ∧
       ∀ (data : Slice) (tail : Bytes), data.WF → data.bytes = bs ++ tail →
         MatchField.unmarshal MatchField.zero data = .ok v := by
   unfold MatchFieldWF at hwf
@@ -229,9 +327,10 @@ theorem matchField_roundtrip (v : V) (hwf : MatchFieldWF v) :
     obtain ⟨hc, hf, hln, rfl, hwv, r, hr, hro, hm⟩ := hwf
     obtain ⟨vb, hvb⟩ := payload_encode val hwv
     obtain ⟨_, _, _, hle⟩ := payload_len val hwv vb val hvb
+    have hE := eidBytes_length_le c
     rcases hm with ⟨rfl, rfl⟩ | ⟨rfl, hwm, hrom⟩
     · obtain ⟨h1, h2⟩ := matchField_encode_nomask c f ln val .nil hwv vb val hvb
-      have hL : (be16 (n16 c) ++ [shl8 (n8 f) 1, n8 ln] ++ vb).length = 4 + vb.length := by
+      have hL : (be16 (n16 c) ++ [shl8 (n8 f) 1, n8 ln] ++ eidBytes c ++ vb).length = 4 + (eidBytes c).length + vb.length := by
         simp only [List.length_append, be16_length, List.length_cons, List.length_nil]
       refine ⟨_, h1, by rw [h2, hL], by omega, by omega, ?_⟩
       · intro data tail hd hb
@@ -239,20 +338,20 @@ theorem matchField_roundtrip (v : V) (hwf : MatchFieldWF v) :
     · obtain ⟨mb, hmb⟩ := payload_encode mask hwm
       obtain ⟨_, _, _, hlem⟩ := payload_len mask hwm mb mask hmb
       obtain ⟨h1, h2⟩ := matchField_encode_mask c f ln val mask hwv hwm vb mb val mask hvb hmb
-      have hL : (be16 (n16 c) ++ [shl8 (n8 f) 1 ||| 1, n8 ln] ++ vb ++ mb).length = 4 + vb.length + mb.length := by
+      have hL : (be16 (n16 c) ++ [shl8 (n8 f) 1 ||| 1, n8 ln] ++ eidBytes c ++ vb ++ mb).length
+          = 4 + (eidBytes c).length + vb.length + mb.length := by
         simp only [List.length_append, be16_length, List.length_cons, List.length_nil]
       refine ⟨_, h1, by rw [h2, hL], by omega, by omega, ?_⟩
       · intro data tail hd hb
         exact matchField_decode_mask c f ln val mask hc hf hln hwv hwm r hr hro hrom vb mb val mask hvb hmb data hd tail hb
   · exact absurd hwf id
 
-
 /-! ### Match -/
 
 /-- what `matchField_roundtrip` gives for one field `f` with encoding `e` -/
 def FieldRT (f : V) (e : Bytes) : Prop :=
   MatchField.marshalM f = .ok (e, f) ∧ MatchField.lenM f = .ok (UInt16.ofNat e.length, f) ∧
-  4 ≤ e.length ∧ e.length ≤ 514 ∧
+  4 ≤ e.length ∧ e.length ≤ 518 ∧
   ∀ (data : Slice) (tail : Bytes), data.WF → data.bytes = e ++ tail →
     MatchField.unmarshal MatchField.zero data = .ok f
 
@@ -288,7 +387,7 @@ theorem flatten_len_ge (encs : List Bytes) (h : ∀ e ∈ encs, 4 ≤ e.length) 
     omega
 
 theorem forall2_bounds (fs : List V) (encs : List Bytes) (h : AllRT fs encs) :
-    ∀ e ∈ encs, 4 ≤ e.length ∧ e.length ≤ 514 := by
+    ∀ e ∈ encs, 4 ≤ e.length ∧ e.length ≤ 518 := by
   induction h with
   | nil => intro e he; cases he
   | cons h1 _ ih =>
